@@ -7,6 +7,8 @@ Observation classes of differences model vs implementation:
   WRITE       bytes written for a batch differ outside the 16 time bytes of a record
   WRITE_TIME  they differ only inside the time bytes (not observed by C18)
   READ        the events the reader returns on a byte stream differ
+  READ_SHORT  ... on a stream that is not a whole number of 24-byte records (an evdev
+              node never delivers one; not observed by C18)
 Checker clauses on the real outputs: C18.length, C18.record, C18.syn (writer),
 C18.roundtrip (reader on the writer's bytes), C18.reader (reader on records
 laid out by libc::input_event with foreign records interleaved).
@@ -65,7 +67,7 @@ def shrink(ctx, work, item, want_key):
     shows the same clause / difference class"""
     inp = item["input"]
     toks = inp["case"].split()
-    if len(toks) <= 1 or inp["case"].startswith("bytes:") or inp["case"].endswith("..."):
+    if len(toks) <= 1 or inp["kind"] not in ("R", "W") or inp["case"].startswith("bytes:") or inp["case"].endswith("..."):
         return item
     flag = "--split-records" if inp["kind"] == "R" else "--split-batch"
     f = os.path.join(work, "split.txt")
@@ -187,6 +189,9 @@ def replay(ctx, rp):
     case = inp.get("case")
     if case is None:
         print("replay names no concrete input (kind=%s): %s" % (rp.get("kind"), rp.get("broken")))
+        return 0
+    if inp.get("kind") == "K":
+        print("key table entry %s: observed=%s expected=%s (coq/gen/KeyTable.v vs coq/theories/SpecKernelKeys.v)" % (case, rp.get("observed"), rp.get("expected")))
         return 0
     if case.startswith("bytes:"):
         args = ["--bytes", case[6:]]
